@@ -91,6 +91,9 @@ def generate(seed, tier="quick", label="mlmc"):
     if sc["nproc"] != 1 and r.random() < 0.15:
         # fault: a task of one of the run's map calls dies in its worker (each call hit with probability 1/k)
         sc["env"]["task_fail_one_in"] = r.choice([3, 8])
+    # only the weak rate is given, the other two are left to the run's regression
+    if sc["rates"] and variant == "adaptive" and r.random() < 0.25:
+        sc["rates"] = [sc["rates"][0], None, None]
     # history: the SAME engine object has priced before, with a tighter tolerance (it then held more samples per level)
     sc["warm_rmse_factor"] = r.choice([0.5, 0.3]) if (variant == "adaptive" and not sc.get("misconfigured") and r.random() < 0.2) else None
     # ... or a fixed-level run through the other entry point of the same engine object
